@@ -1,5 +1,5 @@
 (* Correspondence for C06: a cluster history (client commands at nodes, deliveries of emitted
-   deltas) and, per node, the final replicated_keys and what clients read for each key. *)
+   deltas, crashes and restarts of nodes) and, per node, the final replicated_keys and what clients read for each key. *)
 From stdpp Require Import gmap.
 From Coq Require Import NArith String.
 From RV Require Export Lib.Hex Model.Crdt Model.ShardState Model.Cluster Corr.Common Corr.C07.
@@ -10,8 +10,10 @@ Definition XApp (k v : string) : ccmd := CAppend (unhex k) (unhex v).
 Definition XHSet (k : string) (fs : list (string * string)) : ccmd :=
   CHSet (unhex k) (map (λ p, (unhex p.1, unhex p.2)) fs).
 Definition XHDel (k : string) (fs : list string) : ccmd := CHDel (unhex k) (map unhex fs).
-Definition CC (i : N) (c : ccmd) : cev := CClient (N.to_nat i) c.
-Definition CD (i : N) (k : string) (d : rvalue) : cev := CDeliver (N.to_nat i) (unhex k) d.
+Definition CC (i : N) (c : ccmd) : rcev := RStep (CClient (N.to_nat i) c).
+Definition CD (i : N) (k : string) (d : rvalue) : rcev := RStep (CDeliver (N.to_nat i) (unhex k) d).
+(* node i crashes and restarts from the deltas it emitted itself *)
+Definition CR (i : N) : rcev := RRestart (N.to_nat i).
 
 Inductive rd := RNone | RStr (s : string) | RHash (fs : list (string * string)) | RWrongType | ROther.
 Definition rd_to_xread (r : rd) : option xread :=
@@ -23,7 +25,7 @@ Definition rd_to_xread (r : rd) : option xread :=
   end.
 
 Record case6 := K6 {
-  k6_evs : list cev;
+  k6_evs : list rcev;
   k6_final : list (list (string * rvalue) * list (string * rd))
 }.
 
@@ -42,7 +44,7 @@ Fixpoint nodes_ok (ns : list node) (fin : list (list (string * rvalue) * list (s
   end.
 
 Definition check6 (k : case6) : bool :=
-  let '(c, _) := crun (cluster_init 3) [] (k6_evs k) in
+  let '(c, _) := rrun (cluster_init 3) [] (k6_evs k) in
   forallb (λ n, negb (sh_ovf (n_sh n))) c && nodes_ok c (k6_final k).
 
 Definition mismatches := mismatches_with check6.
